@@ -318,11 +318,16 @@ class ParseAPI(object):
         if data is None or self._wif_prefix is None or not data.startswith(self._wif_prefix):
             return None
         data = data[len(self._wif_prefix) :]
-        is_compressed = len(data) > 32
+        is_compressed = len(data) == 33 and data[-1:] == b"\01"
         if is_compressed:
             data = data[:-1]
+        if len(data) != 32:
+            return None
         se = from_bytes_32(data)
-        return self._network.keys.private(se, is_compressed=is_compressed)
+        try:
+            return self._network.keys.private(se, is_compressed=is_compressed)
+        except ValueError:
+            return None
 
     def secret_exponent(self, s: str) -> Any:
         """
